@@ -27,6 +27,8 @@ def cases(tier, seed):
         out.append(dict(src=s, family="programs-of-the-repository-test-suite"))
     for s in gen.folded_value_cases():
         out.append(dict(src=s, family="values-through-initialisers-booleans-and-array-elements"))
+    for s in gen.nonfinite_param_cases():
+        out.append(dict(src=s, family="parameters-folded-to-a-non-finite-double"))
     # the outputs of the other checks' enumerated families must be well-formed flat programs as well
     step = 3 if tier == "quick" else 1
     for fam, progs in (("scope-shapes", gen.scope_cases()), ("repeated-calls", gen.repeated_call_cases()), ("subroutine-argument-shapes", gen.subroutine_arg_cases(3)),
@@ -67,6 +69,10 @@ def _reload_worker(src):
         if len(names) != len(set(names)):
             return "C03-register-declared-in-a-loop-body-is-emitted-once-per-iteration"
         for x in ss:
+            if isinstance(x, (qa.QuantumGate, qa.QuantumPhase)):
+                args = x.arguments if isinstance(x, qa.QuantumGate) else [x.argument]
+                if any(isinstance(a, qa.FloatLiteral) and (a.value != a.value or a.value in (float("inf"), float("-inf"))) for a in args):
+                    return "C03-non-finite-gate-parameter"
             if isinstance(x, qa.QuantumPhase) and x.qubits:
                 return "C03-gphase-with-qubit-operands"
             if isinstance(x, qa.BranchingStatement):
@@ -167,7 +173,11 @@ def direct(run, chk):
             wft["not-evaluated"] += 1
         elif w:
             wft["well-formed"] += 1
-            if res[i][0] != "ok" and nbad < 8:
+            kid = res[i][2] if len(res[i]) > 2 else None
+            if kid and kid in known and known[kid]["status"] == "known":
+                # e.g. a parameter folded to inf: well formed as a syntax tree, but no text denotes it (listed finding, reported above)
+                wft["well-formed-but-known-shape"] = wft.get("well-formed-but-known-shape", 0) + 1
+            elif res[i][0] != "ok" and nbad < 8:
                 nbad += 1
                 chk.violation("wellformed_output_%s_%d" % (res[i][0].replace("-", "_"), nbad),
                               {"kind": "program", "source": srcs[i], "what": "the unrolled output is a well-formed flat program (the model accepts it and unrolls it to itself, Props/C03.v) but the implementation: %s: %s" % (res[i][0], res[i][1]),
